@@ -21,7 +21,7 @@ from vlib import zlit, zlist, blit, coq_opt, coq_list
 LEVEL = 'proof'
 _REPLAY = []      # case objects of --replay, run first like the corpus
 IMPORTS = ['SV.C11.Base', 'SV.C11.Utf8', 'SV.C11.Gen_events', 'SV.C11.Envelope', 'SV.C11.Tick',
-           'SV.C11.Notify', 'SV.C11.Corr']
+           'SV.C11.Notify', 'SV.C11.Routing', 'SV.C11.Corr']
 HEADER_KEYS = [b'ver', b'server', b'serial', b'pool', b'poolserial', b'eventname', b'len']
 
 # docs/events.rst, written down independently of events.py: concrete class -> event name
@@ -782,6 +782,81 @@ def _run(chk, wd, proved):
     if got:
         chk.violation({'kind': 'a lone surrogate reached a notification through XML-RPC; dispatching it raises UnicodeEncodeError in the main loop',
                        'raw_xml': raw, 'answer': repr(res)})
+
+    # ---------------- J. routing: pools subscribed to several types (every ordering of type / supertype / duplicates)
+    rt_c, rt_m = part('routing', 'list evclass * evclass * Z', 'check_routing')
+    sb_c, sb_m = part('subscription', 'list evclass * list Z', 'check_subscription')
+    FAMILIES = [
+        ['PROCESS_STATE', 'PROCESS_STATE_RUNNING', 'PROCESS_STATE_EXITED', 'PROCESS_STATE_STARTING'],
+        ['TICK', 'TICK_5', 'TICK_60'],
+        ['PROCESS_LOG', 'PROCESS_LOG_STDOUT', 'PROCESS_LOG_STDERR'],
+        ['PROCESS_COMMUNICATION', 'PROCESS_COMMUNICATION_STDOUT', 'PROCESS_COMMUNICATION_STDERR'],
+        ['PROCESS_GROUP', 'PROCESS_GROUP_ADDED', 'PROCESS_GROUP_REMOVED'],
+        ['SUPERVISOR_STATE_CHANGE', 'SUPERVISOR_STATE_CHANGE_RUNNING', 'SUPERVISOR_STATE_CHANGE_STOPPING'],
+    ]
+    all_type_names = [k for k, v in et_items]
+    pool_lists = []
+    for fam in FAMILIES:
+        alpha = fam + ['EVENT']
+        for n in (1, 2, 3):
+            for tup in itertools.product(alpha, repeat=n):
+                pool_lists.append(list(tup))
+    for _ in range(60 if quick else 1500):
+        pool_lists.append([rng.choice(all_type_names) for _ in range(rng.randrange(1, 6))])
+    n_pool_lists_exh = len(pool_lists) - (60 if quick else 1500)
+    PSC = states.ProcessStates
+    emissions = [('state', PSC.STARTING), ('state', PSC.RUNNING), ('state', PSC.EXITED), ('state', PSC.EXITED),
+                 ('tick', 3.0), ('tick', 61.0), ('log', 'stdout', b'out'), ('log', 'stderr', b'err'),
+                 ('comm', 'stdout', b'c1'), ('comm', 'stderr', b'c2'), ('group_add', 'ga'), ('group_add', 'ga'),
+                 ('group_remove', 'ga'), ('running',), ('stopping',), ('remote', 't', 'd'), ('tick', 3700.0),
+                 ('state', PSC.STARTING), ('state', PSC.BACKOFF)]
+    seen_rt = set()
+    BATCH = 10
+    for b0 in range(0, len(pool_lists), BATCH):
+        batch = pool_lists[b0:b0 + BATCH]
+        specs = [('pool%d' % i, types) for i, types in enumerate(batch)]
+        ems = emissions if (b0 // BATCH) % 3 == 0 or quick else [rng.choice(emissions) for _ in range(12)]
+        emitted, streams = I.run_routing(specs, ems)
+        for (pname, types) in specs:
+            stream = streams[pname]
+            real_types = [getattr(events.EventTypes, t) for t in types]
+            parsed = listener_stream_bytes(stream)
+            want = [(DOCUMENTED_NAMES.get(cn, str(name_of.get(real_by_name[cn]))), pl)
+                    for cn, pl, _ in emitted if any(issubclass(real_by_name[cn], t) for t in real_types)]
+            got = None if parsed is None else [(dict(kvs).get(b'eventname', b'').decode('latin-1'), p.decode('utf-8', 'replace'))
+                                               for kvs, p in parsed]
+            serials = [] if parsed is None else [dict(kvs).get(b'serial') for kvs, _ in parsed]
+            chk.dist('routing:pool_events_len%d' % len(types))
+            distinct.add(('routing', len(want), len(set(types)) < len(types)))
+            if got != want or len(set(serials)) != len(serials):
+                chk.violation({'kind': 'a pool\'s listener did not receive exactly one envelope per emitted event it subscribes to '
+                                       '(and none for the others)',
+                               'pool_events': types, 'emissions': [_jsonable(list(e)) for e in ems],
+                               'emitted': [[cn, pl] for cn, pl, _ in emitted],
+                               'envelopes_received': got, 'serials_received': [x.decode('latin-1') if x else x for x in serials],
+                               'expected': want})
+            # model: number of envelopes per event, counted at byte level by serial
+            pe_term = coq_list(cls_term(t) for t in real_types)
+            for cn, pl, serial in emitted:
+                cnt = 0 if serial is None else len([x for x in serials if x == b'%d' % serial])
+                key = (tuple(types), cn, cnt)
+                if key in seen_rt:
+                    continue
+                seen_rt.add(key)
+                rt_c.append('(%s, %s, %s)' % (pe_term, cn, zlit(cnt)))
+                rt_m.append({'pool_events': types, 'event_class': cn, 'envelopes_on_listener_stdin': cnt})
+        # the subscription itself, of real pools
+        for types in batch:
+            real_types = [getattr(events.EventTypes, t) for t in types]
+            pool, _o = I.make_pool('supervisor', 'p', pool_events=real_types)
+            try:
+                st = pool._subscription_types()
+            finally:
+                events.clear()
+            sb_c.append('(%s, %s)' % (coq_list(cls_term(t) for t in real_types), zlist([gen_names.index(t.__name__) for t in st])))
+            sb_m.append(types)
+    chk.note('routing: %d exhaustive pool_events lists (every list of length 1-3 over each family + EVENT), %d random' %
+             (n_pool_lists_exh, len(pool_lists) - n_pool_lists_exh))
 
     # ---------------- compare everything inside Coq
     total = 0
